@@ -92,3 +92,5 @@ cfg("asyncio_live_join", "liveness, topology join (ONE task polling readable()/r
     "join", MaxLen=2, MaxChunk=2, MaxOps=2, MaxPeerOps=2, AsyncPeer=False, spec="FairSpec", inv="TypeOK", prop="Live_C17_Woken Live_C17_Settles")
 cfg("asyncio_var_single_live", "non-vacuity, liveness: the code before 0061559, ONE task polling readable() and writable() on one adapter -- each readiness() consumes the\nbit the other one waits for: the loop spins for ever although both directions are ready.  TLC must report Live_C17_Settles violated.",
     "join", MaxLen=2, MaxChunk=2, MaxOps=2, MaxPeerOps=2, Variants='{"single_waker"}', AsyncPeer=False, spec="FairSpec", inv="TypeOK", prop="Live_C17_Settles")
+cfg("asyncio_var_consumed_live", "non-vacuity, liveness: take_readiness(x) clears both bits -- ONE task polling readable() then writable(): while only the write\ndirection is ready, readable() (polled first) steals its readiness at every round.  TLC must report Live_C17_Settles violated.",
+    "join", MaxLen=2, MaxChunk=2, MaxOps=2, MaxPeerOps=2, Variants='{"readiness_consumed_whole"}', AsyncPeer=False, spec="FairSpec", inv="TypeOK", prop="Live_C17_Settles")
